@@ -2,6 +2,7 @@ package props
 
 import (
 	"fmt"
+	"go/token"
 	"go/types"
 	"sort"
 	"strings"
@@ -609,11 +610,12 @@ func c04R5(p *engine.Prog, r *engine.Report, sm *stateModel) {
 	envCacheResetRule(p, r, "C04-R6", "vm/env", "EnvImp")
 	r.Floor("C04-R6", 5, "EnvImp caches written back by Commit")
 	totalCostNoBypassRule(p, r, "C04-R2")
-	importRules(p, r, "C15", map[string]string{"C15-R6": "C04-R8"})
+	importRules(p, r, "C15", map[string]string{"C15-R6": "C04-R8", "C15-R4": "C04-R8"})
 	gasLimitFeeRateRule(p, r, "C04-R8")
 	chargedCostRule(p, r, "C04-R2")
 	// ---------------- R9: stake parts stay nested
 	stakePartsRule(p, r, "C04-R9")
+	c04R10(p, r)
 	r.Floor("C04-R9", 3, "invitee reward (locked, replenished) + ReplenishStakeTx")
 	// ---------------- R7: buffered balances are read through the buffer
 	c04R7(p, r)
@@ -673,4 +675,115 @@ func c04R7rule(p *engine.Prog, r *engine.Report, rule string) {
 		r.Floor(rule, 2, "EnvImp.getBalance, WasmEnv.getBalance")
 	}
 	_ = n
+}
+
+// c04R10: a fund is paid out by the weights it was divided by. In addFlipReward a reward share is
+// fund / total, where `total` accumulates the very weights that are appended to one per-author slice;
+// a payout call that combines that share with the weights of another slice pays shares that do not
+// add up to the fund (more than the epoch issues, or less).
+func c04R10(p *engine.Prog, r *engine.Report) {
+	f := mustFunc(p, r, "blockchain", "addFlipReward")
+	if f == nil {
+		return
+	}
+	r.Fn(engine.FuncName(f))
+	// which accumulator grows together with which slice field: `total += w` and `x.F = append(x.F, w)` in one block
+	together := map[string]map[ssa.Value]bool{} // field -> the ADD values of its accumulator
+	all := append([]*ssa.Function{f}, f.AnonFuncs...)
+	for _, g := range all {
+		for _, b := range g.Blocks {
+			var appended []struct {
+				field string
+				w     ssa.Value
+			}
+			for _, ins := range b.Instrs {
+				st, ok := ins.(*ssa.Store)
+				if !ok {
+					continue
+				}
+				_, fld, okF := engine.FieldOf(st.Addr)
+				if !okF {
+					continue
+				}
+				c, isC := engine.Unwrap(st.Val).(*ssa.Call)
+				if !isC {
+					continue
+				}
+				if bi, isB := c.Call.Value.(*ssa.Builtin); !isB || bi.Name() != "append" || len(c.Call.Args) < 2 {
+					continue
+				}
+				// the appended element(s)
+				for v := range engine.BackSlice(c.Call.Args[1], engine.SliceOpts{ThroughLoads: true, MaxNodes: 60}) {
+					if bt, isBasic := v.Type().Underlying().(*types.Basic); isBasic && bt.Kind() == types.Float32 {
+						appended = append(appended, struct {
+							field string
+							w     ssa.Value
+						}{fld, v})
+					}
+				}
+			}
+			for _, ins := range b.Instrs {
+				add, ok := ins.(*ssa.BinOp)
+				if !ok || add.Op != token.ADD {
+					continue
+				}
+				for _, a := range appended {
+					if add.Y == a.w || add.X == a.w {
+						if together[a.field] == nil {
+							together[a.field] = map[ssa.Value]bool{}
+						}
+						together[a.field][add] = true
+					}
+				}
+			}
+		}
+	}
+	n := 0
+	for _, g := range all {
+		for _, c := range engine.Calls(g) {
+			cc := c.Common()
+			if cc.IsInvoke() {
+				continue
+			}
+			if sc := cc.StaticCallee(); sc != nil && sc.Parent() == nil {
+				continue // only the local payout closure
+			}
+			var weights, share ssa.Value
+			for _, a := range cc.Args {
+				if a.Type().String() == "[]float32" {
+					weights = a
+				}
+				if n2 := engine.NamedOf(a.Type()); n2 != nil && n2.Obj().Name() == "Decimal" {
+					share = a
+				}
+			}
+			if weights == nil || share == nil {
+				continue
+			}
+			_, wf, okW := engine.FieldOf(engine.Origin(weights))
+			if !okW {
+				continue
+			}
+			n++
+			// the share's divisor is the accumulator that grew with exactly this field
+			ok := false
+			for v := range engine.BackSlice(share, engine.DefaultSlice) {
+				if together[wf][v] {
+					ok = true
+				}
+				if ph, isPhi := v.(*ssa.Phi); isPhi {
+					for _, e := range ph.Edges {
+						if together[wf][e] {
+							ok = true
+						}
+					}
+				}
+			}
+			r.Check(ok, "C04-R10", uniq(r, "addFlipReward|the share paid by "+wf+" was divided by the total of "+wf), p.InstrPos(c), "share = fund / Σ "+wf, "the payout combines the weights in "+wf+" with a share whose divisor did not accumulate those weights: the shares paid do not add up to the fund — an epoch can mint more than its issuance (or less)")
+		}
+	}
+	if n == 0 {
+		r.Und("C04-R10", "addFlipReward|payout calls", p.Pos(f.Pos()), "no payout call with a weight slice and a share found")
+	}
+	r.Floor("C04-R10", 2, "basic and extra payouts")
 }
